@@ -92,8 +92,7 @@ fn main() {
     });
     std::thread::spawn(move || {
         std::thread::sleep(std::time::Duration::from_secs(limit));
-        eprintln!("HARNESS WATCHDOG: check did not finish within {} s - inconclusive, no verdict", limit);
-        std::process::exit(2);
+        runner::watchdog_fire(limit);
     });
     let mut ctx = Ctx::new(&prop, tier, seed);
     if !props::run(&mut ctx) {
